@@ -576,6 +576,131 @@ theorem multi_errors_persisted (host : Bool) (root : Str) (st : Store) (name : S
     have : (ps.filter (okP host)).isEmpty = false := by simpa [List.isEmpty_iff] using h1
     simp [this]
 
+/-! ### 5b. a component whose serialization fails has no effect on the others -/
+
+/-- every element's serializer fails (content empty after filtering / cleaning under a HostContext, an
+    exception from load, a write error before the destination is opened) — or there is no value -/
+def AllFail (host : Bool) : Option Value → Prop
+  | none => True
+  | some (.single p) => okP host p = false
+  | some (.multi ps) => ∀ p ∈ ps, okP host p = false
+
+theorem marshalList_allFail_fs (host : Bool) (root : Str) (fs : FS) (ps : List Provider)
+    (h : ∀ p ∈ ps, okP host p = false) : (marshalList host root fs ps).2.2 = fs := by
+  induction ps with
+  | nil => rfl
+  | cons p ps ih =>
+    have hp := h p (by simp)
+    unfold marshalList serializeOne
+    cases hwt : writeText host p with
+    | ok t => simp [okP, hwt] at hp
+    | error f => simpa using ih (fun q hq => h q (List.mem_cons_of_mem _ hq))
+
+/-- the data directory after `dehydrate` depends on the data directory before and on the value only -/
+theorem dehydrate_fs (host : Bool) (root : Str) (st : Store) (name : Str) (recorded : List Fault) (v : Option Value) :
+    (dehydrate host root st name recorded v).fs = (marshal host root st.fs v).2.2 := by
+  unfold dehydrate; simp only; split <;> rfl
+
+/-- A FAILING WRITE LEAVES THE FILE-SYSTEM MAP UNCHANGED: persisting a component all of whose
+    serializers fail does not touch data/ — whatever is there (in particular a file an earlier,
+    successful component wrote to the very destination the failing one would have used) stays as it is. -/
+theorem dehydrate_fail_frame (host : Bool) (root : Str) (st : Store) (name : Str) (recorded : List Fault)
+    (v : Option Value) (h : AllFail host v) : (dehydrate host root st name recorded v).fs = st.fs := by
+  rw [dehydrate_fs]
+  match v, h with
+  | none, _ => rfl
+  | some (.single p), h =>
+    simp only [AllFail, okP] at h
+    cases hwt : writeText host p with
+    | ok t => simp [hwt] at h
+    | error f => simp [marshal, serializeOne, hwt]
+  | some (.multi ps), h =>
+    simp only [marshal]
+    exact marshalList_allFail_fs host root st.fs ps h
+
+/-- two archives that agree on data/ and on every entry except possibly `n`'s -/
+def AgreeExcept (n : Str) (a b : Store) : Prop :=
+  a.fs = b.fs ∧ ∀ k, k ≠ n → metaGet a.entries k = metaGet b.entries k
+
+theorem dehydrate_agree (host : Bool) (root : Str) (n : Str) (a b : Store) (h : AgreeExcept n a b)
+    (name : Str) (recorded : List Fault) (v : Option Value) :
+    AgreeExcept n (dehydrate host root a name recorded v) (dehydrate host root b name recorded v) := by
+  obtain ⟨hfs, hent⟩ := h
+  refine ⟨by rw [dehydrate_fs, dehydrate_fs, hfs], ?_⟩
+  intro k hk
+  have ha := dehydrate_written_iff host root a name recorded v
+  have hb := dehydrate_written_iff host root b name recorded v
+  simp only at ha hb
+  by_cases e : k = name
+  · subst e
+    have hdoc : docFor host root a.fs k recorded v = docFor host root b.fs k recorded v := by rw [hfs]
+    by_cases c : (docFor host root a.fs k recorded v).results.isSome = true ∨ (docFor host root a.fs k recorded v).errors ≠ []
+    · rw [ha.1 c, hb.1 (hdoc ▸ c), hdoc]
+    · rw [ha.2.1 c, hb.2.1 (hdoc ▸ c)]; exact hent k hk
+  · rw [ha.2.2 k e, hb.2.2 k e]; exact hent k hk
+
+theorem persist_agree (host : Bool) (root : Str) (n : Str) (items : List Item) (a b : Store)
+    (h : AgreeExcept n a b) : AgreeExcept n (persist host root a items) (persist host root b items) := by
+  induction items generalizing a b with
+  | nil => exact h
+  | cons it rest ih =>
+    simp only [persist, List.foldl_cons] at ih ⊢
+    exact ih _ _ (dehydrate_agree host root n a b h it.name it.recorded it.value)
+
+/-- `persist_fail_frame`: over a whole collection run, in ANY position (failing one first, last, in the
+    middle), a component whose serialization fails has NO EFFECT on the archive except its own
+    meta_data entry: data/ is exactly what it is without that component, and so is every other
+    component's document.  With `hydrate_tolerant` (the failing component's document has no results,
+    `persist_fail_doc`) everything else loads as if the failing component had not been there. -/
+theorem persist_fail_frame (host : Bool) (root : Str) (st : Store) (pre post : List Item) (it : Item)
+    (h : AllFail host it.value) :
+    (persist host root st (pre ++ it :: post)).fs = (persist host root st (pre ++ post)).fs ∧
+    ∀ k, k ≠ it.name →
+      metaGet (persist host root st (pre ++ it :: post)).entries k = metaGet (persist host root st (pre ++ post)).entries k := by
+  have hstep : AgreeExcept it.name
+      (dehydrate host root (persist host root st pre) it.name it.recorded it.value) (persist host root st pre) := by
+    refine ⟨dehydrate_fail_frame host root _ it.name it.recorded it.value h, ?_⟩
+    intro k hk
+    exact (dehydrate_written_iff host root (persist host root st pre) it.name it.recorded it.value).2.2 k hk
+  have := persist_agree host root it.name post _ _ hstep
+  simpa only [AgreeExcept, persist, List.foldl_append, List.foldl_cons] using this
+
+/-- in particular the file of an EARLIER successful component on the same destination is still there,
+    with its text, right after the failing one was persisted -/
+theorem persist_fail_keeps_earlier (host : Bool) (root : Str) (st : Store) (pre : List Item) (it : Item)
+    (h : AllFail host it.value) (q : Str) :
+    (persist host root st (pre ++ [it])).fs.read q = (persist host root st pre).fs.read q := by
+  have := (persist_fail_frame host root st pre [] it h).1
+  simp only [List.append_nil] at this
+  rw [this]
+
+/-- … and the failing component itself is persisted with its errors only (no results) -/
+theorem persist_fail_doc (host : Bool) (root : Str) (st : Store) (pre : List Item) (name : Str)
+    (recorded : List Fault) (p : Provider) (f : Fault) (hf : writeText host p = .error f) :
+    metaGet (persist host root st (pre ++ [⟨name, recorded, some (.single p)⟩])).entries name
+      = some (.json { name := name, errors := recorded ++ [f], results := none }) := by
+  simp only [persist, List.foldl_append, List.foldl_cons, List.foldl_nil]
+  exact serializer_failure_persisted host root _ name recorded p f hf
+
+/-- non-vacuity: a successful command on `insights_commands/x`, then a failing one on the same
+    destination — the first one's text is still what the destination holds -/
+example :
+    (persist true ['D'] {}
+      [⟨['a'], [], some (.single { kind := .command, relativePath := ['x'], load := .ok [['o', 'k']] })⟩,
+       ⟨['b'], [], some (.single { kind := .command, relativePath := ['x'], load := .error 3 })⟩]).fs.read
+        (pjoin ['D'] (insightsCommands ++ ['/', 'x'])) = some ['o', 'k'] := by decide
+
+/-- loading filters a filtered spec's lines again with the spec's filters; on lines that were
+    filtered when collected (each contains one of the patterns) that changes nothing -/
+theorem postFilter_of_filtered (pats : List Str) (ls : List Str)
+    (h : ∀ l ∈ ls, pats.any (fun p => containsStr p l) = true) : postFilter pats ls = ls := by
+  unfold postFilter
+  split
+  · rfl
+  · exact List.filter_eq_self.mpr h
+
+example : postFilter [['K']] [['a', 'K'], ['b']] = [['a', 'K']] := by decide
+
 /-! ### 6. hydrate tolerates bad entries -/
 
 /-- every kind of bad entry contributes nothing: unreadable, not JSON (garbage, truncated, empty),
